@@ -684,6 +684,21 @@ func optionalFill(tag string) (func() ast.Node, bool) {
 		return func() ast.Node { return &ast.Ident{Name: "TypZ"} }, true
 	case "BranchStmt.Label":
 		return func() ast.Node { return &ast.Ident{Name: "LabZ"} }, true
+	case "FuncType.TypeParams":
+		// a generic function is not an instance of a pattern without type
+		// parameters (for a func literal the result does not parse, and the
+		// plant is dropped)
+		return func() ast.Node {
+			return &ast.FieldList{Opening: 1, Closing: 1, List: []*ast.Field{{Names: []*ast.Ident{{Name: "TZ"}}, Type: &ast.Ident{Name: "any"}}}}
+		}, true
+	case "FuncType.Results":
+		return func() ast.Node {
+			return &ast.FieldList{List: []*ast.Field{{Type: &ast.Ident{Name: "errorZ"}}}}
+		}, true
+	case "FuncDecl.Recv":
+		return func() ast.Node {
+			return &ast.FieldList{Opening: 1, Closing: 1, List: []*ast.Field{{Names: []*ast.Ident{{Name: "rz"}}, Type: &ast.Ident{Name: "RecvZ"}}}}
+		}, true
 	}
 	return nil, false
 }
